@@ -167,6 +167,40 @@ def greedy_family():
     return out
 
 
+def descr_family():
+    """The same literal text carrying different descriptions at DIFFERENT points of the grammar
+    (never two labels at one point, so inside C01's domain): the emitted literal list is keyed by
+    (text, description), so one text occupies several ids and the word matcher must try all of
+    them.  Top-level and inside words, two and three ids, in both orders.
+    -> list of (statements, probes, forced queries)"""
+    def lit(t, d=None):
+        return ('lit', t, d)
+    out = []
+
+    def add(branches, words_seqs):
+        for order in (branches, list(reversed(branches))):
+            e = ('alt', [('seq', list(b)) for b in order])
+            qs = []
+            for ws in words_seqs:
+                for k in range(len(ws) + 1):
+                    qs.append((list(ws[:k]), ''))
+                    if k < len(ws):
+                        qs.append((list(ws[:k]), ws[k][:1]))
+            out.append(([('call', 'cmd', e)], Probes(), qs))
+
+    add([[lit('p'), lit('a', 'first'), lit('x')], [lit('q'), lit('a', 'second'), lit('y')]],
+        [['p', 'a', 'x'], ['q', 'a', 'y'], ['p', 'a', 'y']])
+    add([[lit('p'), lit('a', 'first'), lit('x')], [lit('q'), lit('a', 'second'), lit('y')], [lit('r'), lit('a'), lit('z')]],
+        [['p', 'a', 'x'], ['q', 'a', 'y'], ['r', 'a', 'z']])
+    add([[lit('p'), lit('a'), lit('x')], [lit('q'), lit('a', 'D'), lit('y')], [lit('r'), lit('a', 'E'), lit('a', 'D'), lit('z')]],
+        [['p', 'a', 'x'], ['q', 'a', 'y'], ['r', 'a', 'a', 'z']])
+    # the same inside words: one within-word literal text with two descriptions in two words
+    add([[('sub', [lit('--p='), ('alt', [lit('v', 'first'), lit('w')])]), lit('x')],
+         [('sub', [lit('--q='), ('alt', [lit('v', 'second'), lit('u')])]), lit('y')]],
+        [['--p=v', 'x'], ['--q=v', 'y'], ['--p=w', 'x'], ['--q=u', 'y']])
+    return out
+
+
 class RGen:
     """Random grammars biased to stay inside C01's domain: per-text descriptions are consistent,
     within-word literal sets are prefix-free, probe outputs come from alphabets disjoint from the
